@@ -190,6 +190,7 @@ fn cycle_check(case: &Value, stats: &mut Stats) -> CheckResult {
         check_calc(&sim).map_err(|f| Failure::new(format!("after popping back to {} plies: {}", sim.moves.len(), f.msg)))?;
     }
     stats.label_if(case["src"] == "control", "control_cycle");
+    stats.label_if(case["src"] == "half_key_pair_in_one_game", "half_key_pair_in_one_game");
     stats.nontrivial(&(case["fen"].to_string(), case["cycle"].to_string()));
     Ok(())
 }
@@ -272,6 +273,119 @@ fn build_collision_game(x: (Col, Pc), s: Sq, s2: Sq, y: (Col, Pc), t: Sq, t2: Sq
     None
 }
 
+/// King + rook against king, White to move: a family small enough to enumerate (about 175,000 valid positions) and connected
+/// by legal play, so that two members which agree in half of the library's key can be put into one game.
+fn krk_positions() -> Vec<RefPos> {
+    let mut out = Vec::new();
+    for wk in 0..64u8 {
+        for wr in 0..64u8 {
+            for bk in 0..64u8 {
+                if wk == wr || wk == bk || wr == bk {
+                    continue;
+                }
+                let mut p = RefPos::empty();
+                p.b[wk as usize] = Some((Col::W, Pc::K));
+                p.b[wr as usize] = Some((Col::W, Pc::R));
+                p.b[bk as usize] = Some((Col::B, Pc::K));
+                if p.is_valid() {
+                    out.push(p);
+                }
+            }
+        }
+    }
+    out
+}
+
+fn krk_key(p: &RefPos) -> (u8, u8, u8, bool) {
+    let find = |m: Man| (0..64u8).find(|&s| p.b[s as usize] == Some(m)).unwrap_or(64);
+    (find((Col::W, Pc::K)), find((Col::W, Pc::R)), find((Col::B, Pc::K)), p.side == Col::W)
+}
+
+/// Shortest sequence of legal non-capturing moves from a to b (breadth first over the reference model's legal moves).
+fn krk_path(a: &RefPos, b: &RefPos) -> Option<Vec<String>> {
+    use std::collections::{HashMap, VecDeque};
+    let goal = krk_key(b);
+    let mut parent: HashMap<(u8, u8, u8, bool), ((u8, u8, u8, bool), String)> = HashMap::new();
+    let mut queue: VecDeque<RefPos> = VecDeque::new();
+    let start = krk_key(a);
+    queue.push_back(a.clone());
+    parent.insert(start, (start, String::new()));
+    while let Some(p) = queue.pop_front() {
+        let k = krk_key(&p);
+        if k == goal {
+            let mut toks = Vec::new();
+            let mut cur = k;
+            while cur != start {
+                let (prev, tok) = parent[&cur].clone();
+                toks.push(tok);
+                cur = prev;
+            }
+            toks.reverse();
+            return Some(toks);
+        }
+        if parent.len() > 600_000 {
+            return None;
+        }
+        for m in p.legal() {
+            if p.is_capture(&m) {
+                continue;
+            }
+            let mut q = p.apply(&m);
+            q.half = 0;
+            q.full = 1;
+            let kq = krk_key(&q);
+            if !parent.contains_key(&kq) {
+                parent.insert(kq, (k, m.uci()));
+                queue.push_back(q);
+            }
+        }
+    }
+    None
+}
+
+/// Games in which two different positions that agree in the low or in the high half of the library's key alternate.
+fn krk_half_key_games(stats: &mut Stats) -> Vec<Value> {
+    let family = krk_positions();
+    let mut keyed: Vec<(u64, usize)> = Vec::with_capacity(family.len());
+    for (i, p) in family.iter().enumerate() {
+        if let Ok(b) = owlchess::Board::try_from(raw_from_ref(p)) {
+            keyed.push((b.zobrist_hash(), i));
+        }
+    }
+    stats.add("king_rook_king_positions_hashed", keyed.len() as u64);
+    let mut pairs: Vec<(usize, usize, &'static str)> = Vec::new();
+    for (half, shift) in [("low", 0u32), ("high", 32u32)] {
+        keyed.sort_by_key(|(h, i)| ((h >> shift) as u32, *i));
+        for w in keyed.windows(2) {
+            if (w[0].0 >> shift) as u32 == (w[1].0 >> shift) as u32 && w[0].0 != w[1].0 {
+                pairs.push((w[0].1, w[1].1, half));
+            }
+        }
+    }
+    pairs.truncate(12);
+    let family = &family;
+    let games: Vec<Option<Value>> = std::thread::scope(|s| {
+        let hs: Vec<_> = pairs
+            .iter()
+            .map(|&(i, j, half)| {
+                s.spawn(move || {
+                    let (a, b) = (&family[i], &family[j]);
+                    let there = krk_path(a, b)?;
+                    let back = krk_path(b, a)?;
+                    if there.len() + back.len() > 44 {
+                        return None; // two rounds must stay clear of the 50-move rule
+                    }
+                    let mut cycle = there;
+                    cycle.extend(back);
+                    Some(json!({"fen": a.fen(), "cycle": cycle, "rounds": 2, "src": "half_key_pair_in_one_game", "half": half, "other": b.fen()}))
+                })
+            })
+            .collect();
+        hs.into_iter().map(|h| h.join().unwrap()).collect()
+    });
+    games.into_iter().flatten().collect()
+}
+
 /// The occurrence count is kept per Zobrist key. Two positions of one game that differ in where two men stand share a key
 /// exactly when the two single moves change the key by the same amount; such pairs are found here by sorting the key
 /// changes of all single non-pawn moves (a structured generator for a region that random histories cannot reach), and
@@ -312,6 +426,9 @@ fn collision_driver(_ctx: &RunCtx, stats: &mut Stats, rep: &mut Reporter) {
         }
     }
     stats.add("equal_changes_without_a_legal_game", undemonstrated);
+    let krk = krk_half_key_games(stats);
+    stats.add("games_joining_two_positions_with_equal_half_keys", krk.len() as u64);
+    cases.extend(krk);
     for (i, d) in deltas.iter().enumerate() {
         if i % 97 == 0 {
             stats.nontrivial(&(d.1, d.2, d.3));
@@ -403,7 +520,7 @@ pub fn property() -> Property {
                After every op chain.calc_outcome() must be in that class with a reason that applies; set_auto_outcome(f) for all three \
                filters stores exactly what passes an independently written filter table. deep_repetition: one position \
                made to occur 70-301 times by a reversible 4-ply cycle and then unwound ply by ply with the outcome checked at every step. \
-               key_collision_search: the key changes of all single non-pawn moves on an empty board (read through RawBoard::zobrist_hash) are sorted; two different moves with the same change would make two different positions of one game share an occurrence counter, so each such pair is turned into a real game (kings placed where the cycle is legal) and judged by the same oracle; two control games always run. \
+               key_collision_search: the key changes of all single non-pawn moves on an empty board (read through RawBoard::zobrist_hash) are sorted; two different moves with the same change would make two different positions of one game share an occurrence counter, so each such pair is turned into a real game (kings placed where the cycle is legal) and judged by the same oracle; two control games always run; in addition all ~175,000 king + rook v king positions are hashed by the library, and up to 12 pairs that agree in the low or the high half of the key are joined into one game by shortest legal paths (breadth-first over the reference model) and played twice round. \
                Outcome::passes / is_force are enumerated over all 22 outcomes x 3 filters. Non-trivial = history reaching a third occurrence with a pop before it or a look-alike \
                position (same squares, different rights/mark); distinct by case.",
         assumptions: &[
@@ -443,7 +560,7 @@ pub fn property() -> Property {
                 driver: Driver::Custom { run: collision_driver },
                 check: cycle_check,
                 configs: Configs::ReleaseOnly,
-                required: &["control_cycle"],
+                required: &["control_cycle"], // the number of half-key pairs depends on the key table (about 7 expected); none at all is possible
                 regressions: &[],
                 exhaustive: false,
             },
